@@ -341,6 +341,72 @@ def _restart_case(seed):
     return counted, viols, restarts
 
 
+def _pack_case(seed):
+    """a folder is PACKED (message files renumbered; count, last UID and UIDNEXT all unchanged) and nothing arrives or leaves
+    afterwards - at most flags change - before the orderly shutdown: the renumbering itself must have been persisted"""
+    import random
+    import traceback
+
+    rng = random.Random(seed)
+    counted, viols = [], []
+    w = W.World(seed=seed, pack_limits=(4, 0.8))
+    try:
+        w.session("P")
+        box = rng.choice(["inbox", "work"])
+        w.cmd("P", "p CREATE work")
+        total = rng.randint(7, 12)
+        w.deliver(box, total, unseen=True)
+        w.cmd("P", f"p SELECT {box}")
+        drop = sorted(rng.sample(range(1, total), rng.randint(3, total - 4)))          # the last message stays
+        w.cmd("P", "p STORE %s +FLAGS.SILENT (\\Deleted)" % ",".join(map(str, drop)))
+        w.cmd("P", "p EXPUNGE")
+        w.cmd("P", "p UNSELECT")
+        for _ in range(3):
+            w.settle(25)                                                                # the management task polls, and packs
+        mb = w.server.active_mailboxes.get(box)
+        packed = mb is not None and list(mb.msg_keys) == list(range(1, len(mb.msg_keys) + 1))
+        if rng.random() < 0.6:
+            w.cmd("P", f"p SELECT {box}")
+            w.cmd("P", "p STORE 1 +FLAGS (\\Flagged kw1)")
+            w.cmd("P", "p UNSELECT")
+        before = observe(w)
+        w.restart()
+        w.run(w.server.find_all_folders())
+        w.server.initial_folder_scan = True
+        w.run(w.server.check_all_folders())
+        w.server.initial_folder_scan = False
+        w.session("P")
+        after = observe(w)
+        counted.append(({"pack_then_restart": box, "messages": total, "expunged": drop, "packed": packed, "seed": seed}, packed))
+        d = same(before, after)
+        if d:
+            viols.append(("an orderly restart after a folder was packed changed what a client can see: " + d[0],
+                          {"seed": seed, "mailbox": box, "delivered": total, "expunged_positions": drop, "packed": packed,
+                           "differences": d[:10], "before": before, "after": after}))
+    except Exception:
+        viols.append(("the implementation raised around a restart after a pack", {"seed": seed, "error": traceback.format_exc()[-1500:]}))
+    finally:
+        w.close()
+    return counted, viols, 1
+
+
+def pack_level(ctx):
+    import multiprocessing as mp
+
+    n = 24 if ctx.thorough else 8
+    seeds = [ctx.rng.randrange(1 << 30) for _ in range(n)]
+    with mp.get_context("fork").Pool(min(core.NPROC, n)) as pool:
+        results = pool.map(_pack_case, seeds, chunksize=1)
+    packed = 0
+    for counted, viols, _ in results:
+        for case, nt in counted:
+            packed += bool(nt)
+            ctx.count(case, nontrivial=nt)
+        for what, rep in viols[:1]:
+            ctx.violation(what, rep)
+    ctx.extra["pack_then_restart"] = {"cases": n, "packed": packed}
+
+
 def restart_level(ctx):
     import multiprocessing as mp
 
@@ -363,11 +429,13 @@ def run(ctx):
                             "generated message-level histories (packing at 4 messages) followed by random namespace scripts "
                             "(CREATE/DELETE/RENAME/SUBSCRIBE/APPEND/STORE/EXPUNGE over nested names), an optional delivery "
                             "pending at shutdown, then observe/restart/observe, twice per history; non-trivial = the observed "
-                            "world had a \\Noselect placeholder or more than three mailboxes (codec: a list with runs and gaps)")
+                            "world had a \\Noselect placeholder or more than three mailboxes (codec: a list with runs and gaps); plus pack-then-restart: a sparse "
+                            "folder is packed by the management task, at most flags change afterwards, then observe/restart/observe")
     ok = ctx.prove("Properties/C12.v")
     codec_level(ctx)
     text_level(ctx)
     restart_level(ctx)
+    pack_level(ctx)
     ctx.assume += ["\\Recent is excluded from the comparison, missing SPECIAL-USE mailboxes may be re-created (property text)",
                    "the persisted text is modelled on bytes (Model/CodecText.v); int() is modelled on ASCII digit strings, the "
                    "malformed stream stays inside the alphabet {0-9 , -} plus blank strings; the 4300-digit limit of str/int is not modelled"]
